@@ -404,7 +404,8 @@ func c15Degenerate(c *core.Ctx, e *c15Env, fast []gen.KeyPair) {
 	var ds []degenerate
 	add := func(name string, f func(ch *gen.Chain)) { ds = append(ds, degenerate{name: name, f: f}) }
 	// rules
-	for _, rule := range [][]string{{}, {"ALLOW"}, {"MATCH"}, {"MATCH", "x"}, {"MATCH", "x", "WITH"}, {"MATCH", "x", "WITH", "PRODUCTS", "FROM"}, {""}, {"", ""}, {"allow", ""}, {"REQUIRE", ""}, {"MATCH", "", "WITH", "PRODUCTS", "FROM", ""}, {"MATCH", "*", "IN", "", "WITH", "MATERIALS", "IN", "", "FROM", "write"}, {"ALLOW", "["}, {"ALLOW", "\\"}, {"DISALLOW", strings.Repeat("*", 200) + "x"}, {"MATCH", "*", "WITH", "PRODUCTS", "FROM", "package"}, {"MATCH", "../*", "IN", "../..", "WITH", "PRODUCTS", "IN", "/", "FROM", "write"}} {
+	for _, rule := range [][]string{{}, {"ALLOW"}, {"MATCH"}, {"MATCH", "x"}, {"MATCH", "x", "WITH"}, {"MATCH", "x", "WITH", "PRODUCTS", "FROM"},
+		{"MATCH", "x", "WITH", "PRODUCTS"}, {"MATCH", "x", "WITH", "PRODUCTS", "IN", "d"}, {"MATCH", "x", "IN", "s", "WITH", "PRODUCTS", "IN", "d"}, {"MATCH", "x", "IN", "s", "WITH", "PRODUCTS"}, {"MATCH", "x", "IN", "s"}, {"MATCH", "x", "IN", "s", "WITH", "PRODUCTS", "IN", "d", "FROM"}, {"MATCH", "x", "IN"}, {""}, {"", ""}, {"allow", ""}, {"REQUIRE", ""}, {"MATCH", "", "WITH", "PRODUCTS", "FROM", ""}, {"MATCH", "*", "IN", "", "WITH", "MATERIALS", "IN", "", "FROM", "write"}, {"ALLOW", "["}, {"ALLOW", "\\"}, {"DISALLOW", strings.Repeat("*", 200) + "x"}, {"MATCH", "*", "WITH", "PRODUCTS", "FROM", "package"}, {"MATCH", "../*", "IN", "../..", "WITH", "PRODUCTS", "IN", "/", "FROM", "write"}} {
 		rule := rule
 		add(fmt.Sprintf("step rule %q", rule), func(ch *gen.Chain) {
 			ch.Layout.Steps[1].ExpectedMaterials = append([][]string{rule}, ch.Layout.Steps[1].ExpectedMaterials...)
@@ -436,7 +437,9 @@ func c15Degenerate(c *core.Ctx, e *c15Env, fast []gen.KeyPair) {
 	add("empty steps list with inspection MATCH", func(ch *gen.Chain) { ch.Layout.Steps = []intoto.Step{} })
 	add("duplicated step names", func(ch *gen.Chain) { ch.Layout.Steps[1].Name = ch.Layout.Steps[0].Name })
 	add("inspection named like a step", func(ch *gen.Chain) { ch.Layout.Inspect[0].Name = "write" })
-	for _, n := range []string{"", "/", "..", "../x", "a/b", "*", "[", "\\", "?", "x\x00y", strings.Repeat("n", 5000), ".", "write.????????", "{write,package}"} {
+	for _, n := range []string{"", "/", "..", "../x", "a/b", "*", "[", "\\", "?", "x\x00y", strings.Repeat("n", 5000), ".", "write.????????", "{write,package}",
+		// names that, used as a glob, match the existing link files of step "write"
+		"[w]rite", "[w][r][i][t][e]", "wr?te", "w*", "*e", "../links/write", "./write", "x/../write", "[a-z][a-z][a-z][a-z][a-z]", "\\w\\r\\i\\t\\e", "w*.????????"} {
 		n := n
 		add(fmt.Sprintf("step named %q", n[:min(len(n), 20)]), func(ch *gen.Chain) { ch.Layout.Steps[0].Name = n })
 		add(fmt.Sprintf("inspection named %q", n[:min(len(n), 20)]), func(ch *gen.Chain) { ch.Layout.Inspect[0].Name = n })
